@@ -387,11 +387,26 @@ func TestParser(t *testing.T) {
 				txt, _ := renderEnt(w, e, fmt.Sprintf("e%d-%s", i+1, tag))
 				elems = append(elems, txt)
 			}
+			// two dataset sections when there are two or more entities: the first half goes to txName, the rest to
+			// a second dataset (each section must end up with exactly its own entities)
+			txName2 := ""
+			split := len(elems)
+			if len(elems) >= 2 {
+				txName2 = "parsetx2-" + tag
+				if _, err := w.Dsm.CreateDataset(txName2, nil); err != nil {
+					t.Fatal(err)
+				}
+				split = (len(elems) + 1) / 2
+			}
 			txdoc := "{"
 			if c := renderCtx(d.Ctx); c != "" {
 				txdoc += `"@context":` + c + ","
 			}
-			txdoc += `"` + txName + `":[` + strings.Join(elems, ",") + "]}"
+			txdoc += `"` + txName + `":[` + strings.Join(elems[:split], ",") + "]"
+			if txName2 != "" {
+				txdoc += `,"` + txName2 + `":[` + strings.Join(elems[split:], ",") + "]"
+			}
+			txdoc += "}"
 			func() {
 				defer func() {
 					if rcv := recover(); rcv != nil {
@@ -409,14 +424,25 @@ func TestParser(t *testing.T) {
 				t.Fatal(gerr2)
 			}
 			st2 := canonAll(res2.Entities)
+			var st3 []CEntity
+			if txName2 != "" {
+				res3, gerr3 := w.Dsm.GetDataset(txName2).GetEntities("", 0)
+				if gerr3 != nil {
+					t.Fatal(gerr3)
+				}
+				st3 = canonAll(res3.Entities)
+			}
 			sum.Checks += 2
 			if d.TxValid {
 				if rc.Code != 200 {
 					div("txn-rejects-valid", 200, fmt.Sprintf("%d %s doc=%s", rc.Code, strings.TrimSpace(rc.Body.String()), txdoc))
-				} else if !sameBag(exp, st2) {
-					div("txn-stored", exp, st2)
+				} else if !sameBag(exp[:split], st2) {
+					div("txn-stored", exp[:split], map[string]any{"section": 1, "stored": st2, "doc": txdoc})
+				} else if !sameBag(exp[split:], st3) {
+					div("txn-stored", exp[split:], map[string]any{"section": 2, "stored": st3, "doc": txdoc})
 				}
 			} else {
+				st2 = append(st2, st3...)
 				if rc.Code < 400 {
 					div("txn-accepts-invalid", "an error status", map[string]any{"status": rc.Code, "doc": txdoc})
 				}
